@@ -35,6 +35,24 @@ TRUSTED = ['modelled not verified: Python object aliasing of cached arrays betwe
 ATTRS = ['_eigvals', '_eigvecs', '_propagators', '_total_propagator', '_total_propagator_liouville']
 
 
+class GridArrays:
+    """the frequency arrays handed to the package: a fresh copy of the grid, or — every third request
+    for one of the two grids of equal length — the caller's *reused* buffer, overwritten in place
+    with the requested grid (callers do reuse their frequency arrays)"""
+
+    def __init__(self, w):
+        self.w = w
+        self.buf = np.array(w[1], dtype=float)
+        self.k = 0
+
+    def __getitem__(self, g):
+        self.k += 1
+        if g in (1, 2) and self.k % 3 == 0 and len(self.w[g]) == len(self.buf):
+            self.buf[:] = self.w[g]
+            return self.buf
+        return np.array(self.w[g], dtype=float)
+
+
 class World:
     """a pulse definition, three grids, fresh reference values for each grid"""
 
@@ -62,6 +80,7 @@ class World:
         else:
             self.descs = descs
             self.w = {int(k): np.asarray(v, dtype=float) for k, v in grids.items()}
+        self.wa = GridArrays(self.w)
         self.traceless = bool(gens.make_basis(self.descs[0]['basis'], d).istraceless)
         # some noise operator has a component along the identity (its trace is nonzero)
         self.idc = bool(any(abs(np.trace(o)) > 1e-12 for dsc in self.descs for o in dsc['n_opers']))
@@ -229,7 +248,7 @@ def apply_op(world, objs, tok):
     p = objs[i]
     a = rest.split(':')
     k = a[0]
-    W, R, S = world.w, world.ref, world.S
+    W, R, S = world.wa, world.ref, world.S
     wh = {'f': 'fidelity', 'g': 'generalized'}
 
     def val(g, key, arr):
